@@ -101,6 +101,73 @@ theorem c05_pt_monotone (startS atoMS T : Nat) (l₁ l₂ : LastSeg) (hn₁ : 0 
   rw [if_neg n1, if_neg n2]
   exact mono _ _ (Nat.div_le_div_right (by omega))
 
+/-! ### publishTime with both ends of the timeline (`calcPublishTimeMS`, `fix:` commit) -/
+
+theorem firstChange_le_now (startS atoMS tsbdMS nowMS T : Nat) (f : Nat × Nat) (hnow : startS * 1000 ≤ nowMS) :
+    firstChangeMS startS atoMS tsbdMS nowMS T f ≤ nowMS := by
+  unfold firstChangeMS
+  simp only
+  split
+  · assumption
+  · exact hnow
+
+/-- **publishTime (both ends) is never later than the request instant.** -/
+theorem c05_publish_le_now (startS nowMS atoMS tsbdMS T : Nat) (lsi : LastSeg) (entries : List (Nat × Nat))
+    (hnow : startS * 1000 ≤ nowMS) (hended : (lsi.start + lsi.dur) * 1000 ≤ (nowMS - startS * 1000 + atoMS) * T) :
+    publishMS startS atoMS tsbdMS nowMS T lsi entries ≤ nowMS := by
+  unfold publishMS
+  have h1 := c05_pt_le_now startS nowMS atoMS T lsi hnow hended
+  cases entries.head? with
+  | none => exact h1
+  | some f => exact Nat.max_le.mpr ⟨h1, firstChange_le_now startS atoMS tsbdMS nowMS T f hnow⟩
+
+/-- … and not before the stream start. -/
+theorem c05_publish_ge_start (startS nowMS atoMS tsbdMS T : Nat) (lsi : LastSeg) (entries : List (Nat × Nat)) :
+    startS * 1000 ≤ publishMS startS atoMS tsbdMS nowMS T lsi entries := by
+  unfold publishMS
+  have h1 := c05_pt_ge_start startS atoMS T lsi
+  cases entries.head? with
+  | none => exact h1
+  | some f => exact Nat.le_trans h1 (Nat.le_max_left _ _)
+
+/-- **publishTime identifies the content of the timeline.**  Take two instants `now₁ ≤ now₂`; `aL₁, aL₂` are the
+availability instants of the last listed segments, `bF₁, bF₂` the instants at which the first listed entries became
+first (as `publishMS` computes them).  What the edge search guarantees (`c05_edge_unique`, `c05_edges_monotone` for the
+live edge; the same statements with `τ = now − tsbd + ato` for the window start): all four lie at or before their own
+request instant, and an end that differs at `now₂` became what it is only after `now₁`.  Then equal publishTimes force
+both ends to be equal — the timelines are the same; conversely different timelines have different publishTimes. -/
+theorem c05_publish_identifies (now₁ aL₁ aL₂ bF₁ bF₂ : Nat)
+    (h1 : aL₁ ≤ now₁) (h2 : bF₁ ≤ now₁)
+    (hL : aL₁ ≠ aL₂ → now₁ < aL₂) (hF : bF₁ ≠ bF₂ → now₁ < bF₂)
+    (hpt : max aL₁ bF₁ = max aL₂ bF₂) : aL₁ = aL₂ ∧ bF₁ = bF₂ := by
+  by_cases ha : aL₁ = aL₂
+  · by_cases hb : bF₁ = bF₂
+    · exact ⟨ha, hb⟩
+    · have := hF hb; omega
+  · have := hL ha; omega
+
+/-- the instants in `c05_publish_identifies` are strictly increasing in the segment end they belong to, so "equal
+instant" is "equal segment": availability of the segment that ends at tick `e` -/
+theorem avail_strict (startS atoMS T e₁ e₂ : Nat) (hT : 0 < T) (hlt : e₁ + T ≤ e₂)
+    (hpos : atoMS ≤ (e₁ * 1000 + T - 1) / T) :
+    (e₁ * 1000 + T - 1) / T + startS * 1000 - atoMS < (e₂ * 1000 + T - 1) / T + startS * 1000 - atoMS := by
+  have : (e₁ * 1000 + T - 1) / T + 1000 ≤ (e₂ * 1000 + T - 1) / T := by
+    have h : e₁ * 1000 + T - 1 + 1000 * T ≤ e₂ * 1000 + T - 1 := by
+      have : e₁ * 1000 + 1000 * T ≤ e₂ * 1000 := by
+        have := Nat.mul_le_mul_right 1000 hlt
+        rw [Nat.add_mul] at this
+        omega
+      omega
+    calc (e₁ * 1000 + T - 1) / T + 1000 = (e₁ * 1000 + T - 1 + 1000 * T) / T := by
+          rw [Nat.add_mul_div_right _ _ hT]
+      _ ≤ (e₂ * 1000 + T - 1) / T := Nat.div_le_div_right h
+  omega
+
+/-- non-vacuity: 2 s segments at 90 kHz, tsbd 5 s: at 11.3 s the first entry (ends at 6 s) became first at 11.0 s,
+later than the last segment's availability at 10.0 s — the case in which the publishTime used to be stale -/
+example : publishMS 0 0 5000 11300 90000 ⟨720000, 180000, 4⟩ [(360000, 180000), (540000, 180000), (720000, 180000)] = 11000 ∧
+    lastSegAvailMS 0 0 90000 ⟨720000, 180000, 4⟩ = 10000 := by decide
+
 /-- After the configured stop time the MPD is static with the duration stop − start. -/
 theorem c05_static_after_stop (a : Asset) (sets : List ASDef) (cfg : MpdCfg) (nowMS stop : Nat) (m : MpdOut)
     (hs : cfg.stopS = some stop) (hafter : stop * 1000 < nowMS) (h : liveMpd a sets cfg nowMS = .ok m) :
